@@ -322,7 +322,65 @@ def fam_globals(tier):
         yield ("toplevel " + n, PRE + sig + "\nshadow main { assert true }\n" if "notmain" not in sig else PRE + sig + "\n")
 
 
-FAMILIES = [fam_binop, fam_unop, fam_slots, fam_builtins, fam_scope, fam_consts, fam_literals, fam_globals]
+# ---- well-typed feature interactions: value kind x producer x enclosing function's return kind (all well typed
+#      by construction; the real checker still decides, rejected ones carry no obligation)
+WPRE = '''struct P { x: int, y: int }
+struct Q { y: string, x: int }
+struct W2 { p: P, q: Q, n: int }
+enum E { A, B }
+union U { L { v: int }, R { s: string } }
+fn inc(k: int) -> int { return (+ k 1) }
+shadow inc { assert (== (inc 1) 2) }
+'''
+#        kind     type             two distinct literals                                   consumer of variable z
+WK = [("int",   "int",            ("7", "8"),                                             "(println (+ z 1))"),
+      ("bool",  "bool",           ("true", "false"),                                      "(println (not z))"),
+      ("str",   "string",         ('"ab"', '"cd"'),                                       "(println (+ z \"!\"))"),
+      ("flt",   "float",          ("1.5", "2.5"),                                         "(println (< (+ z 1.0) 3.0))"),
+      ("arr",   "array<int>",     ("[1, 2]", "[3]"),                                      "(println (+ (at z 0) (array_length z)))"),
+      ("sarr",  "array<string>",  ('["x", "y"]', '["z"]'),                                "(println (+ (at z 0) \"!\"))"),
+      ("stP",   "P",              ("P { x: 1, y: 2 }", "P { x: 3, y: 4 }"),               "(println (+ z.x (* z.y 10)))"),
+      ("stQ",   "Q",              ('Q { y: "s", x: 5 }', 'Q { y: "t", x: 6 }'),           "(println (+ z.x 1))\n    (println (+ z.y \"!\"))"),
+      ("stW",   "W2",             ('W2 { p: P { x: 1, y: 2 }, q: Q { y: "s", x: 5 }, n: 9 }', 'W2 { p: P { x: 3, y: 4 }, q: Q { y: "t", x: 6 }, n: 8 }'),
+                                                                                           "(println (+ z.q.x z.p.y))\n    (println (+ z.q.y \"!\"))"),
+      ("en",    "E",              ("E.A", "E.B"),                                         "(println (== z E.B))"),
+      ("tup",   "(int, string)",  ('(1, "t")', '(2, "u")'),                               "(println (+ z.0 1))\n    (println (+ z.1 \"!\"))"),
+      ("un",    "U",              ("U.L { v: 1 }", 'U.R { s: "k" }'),                     "match z {\n        L(q) => { (println (+ q.v 1)) }\n        R(q) => { (println (+ q.s \"!\")) }\n    }"),
+      ("fn",    "fn(int) -> int", ("inc", "inc"),                                         "(println (z 1))")]
+
+
+def fam_wellformed(tier):
+    for k, t, (l1, l2), cons in WK:
+        prods = {
+            "param": ("", "    let z: %s = a\n" % t),
+            "local": ("", "    let z: %s = %s\n" % (t, l2)),
+            "mutable-set": ("", "    let mut z: %s = %s\n    set z a\n" % (t, l2)),
+            "fn-result": ("fn mk(q: %s) -> %s { return q }\nshadow mk { assert true }\n" % (t, t), "    let z: %s = (mk a)\n" % t),
+            "fn-result-literal": ("fn mk2() -> %s { return %s }\nshadow mk2 { assert true }\n" % (t, l2), "    let z: %s = (mk2)\n" % t),
+            "if-expr": ("", "    let z: %s = if c { a } else { %s }\n" % (t, l2)),
+            "if-expr-nested": ("", "    let z: %s = if c { if (not c) { %s } else { a } } else { %s }\n" % (t, l2, l2)),
+            "match-expr": ("", "    let z: %s = match u {\n        L(q) => a,\n        R(q) => %s\n    }\n" % (t, l2)),
+            "match-stmt-set": ("", "    let mut z: %s = %s\n    match u {\n        L(q) => { set z a }\n        R(q) => { (println q.s) }\n    }\n" % (t, l2)),
+            "array-elem": ("", "    let xs: array<%s> = [a, %s]\n    let z: %s = (at xs 0)\n" % (t, l2, t)),
+            "array-push-pop": ("", "    let mut xs: array<%s> = []\n    set xs (array_push xs a)\n    set xs (array_push xs %s)\n    let z: %s = (at xs 1)\n" % (t, l2, t)),
+            "struct-field": ("struct H { f: %s, n: int }\n" % t, "    let h: H = H { f: a, n: 1 }\n    let z: %s = h.f\n" % t),
+            "tuple-elem": ("", "    let tp: (int, %s) = (1, a)\n    let z: %s = tp.1\n" % (t, t)),
+            "union-payload": ("union UH { K { f: %s }, N { n: int } }\n" % t,
+                              "    let uh: UH = UH.K { f: a }\n    let mut z: %s = %s\n    match uh {\n        K(q) => { set z q.f }\n        N(q) => { (println q.n) }\n    }\n" % (t, l2)),
+            "loop-carried": ("", "    let mut z: %s = %s\n    for i in (range 0 2) { if (== i 1) { set z a } else {} }\n" % (t, l2)),
+            "global": ("let g0: %s = %s\n" % (t, l1), "    let z: %s = g0\n" % t),
+            "closure-capture": ("", "    fn inner(b: int) -> int {\n        let z: %s = a\n        %s\n        return b\n    }\n    (println (inner 1))\n    let z: %s = a\n" % (t, cons.replace("\n    ", "\n        "), t)),
+        }
+        for pn, (top, body) in prods.items():
+            for rk in ("int", "same"):
+                rt = "int" if rk == "int" else t
+                ret = "0" if rk == "int" else "z"
+                src = (WPRE + top + "fn c(a: %s, c: bool, u: U) -> %s {\n%s    %s\n    return %s\n}\nshadow c { assert true }\n" % (t, rt, body, cons, ret) +
+                       "fn main() -> int {\n    let r1: %s = (c %s true U.L { v: 1 })\n    let r2: %s = (c %s false U.R { s: \"w\" })\n    (println \"ran\")\n    return 0\n}\nshadow main { assert true }\n" % (rt, l1, rt, l1))
+                yield ("wf %s via %s returning %s" % (k, pn, rk), src)
+
+
+FAMILIES = [fam_binop, fam_unop, fam_slots, fam_builtins, fam_scope, fam_consts, fam_literals, fam_globals, fam_wellformed]
 
 # ------------------------------------------------------------------------------------------ running
 _ST = {}
